@@ -24,7 +24,8 @@ reg(Prop(
          'carry a call budget (cells+600) so that a non-terminating range inside the library is a classified violation.'
          ' Interrupted assignments: copy assignment between all small sizes with a cell type whose k-th copy throws, for every k; afterwards the target is a consistent grid (content() = product of size() = stored cells, every in-range position dereferenceable).'
          ' fill with a function that reads the grid being filled: a running number computed from the cell before (in storage order) must come out as 1..n.'
-         ' All pairs of iterators of a position range (up to 40 positions): equal exactly when advanced equally far.',
+         ' All pairs of iterators of a position range (up to 40 positions): equal exactly when advanced equally far.'
+         ' Self move assignment of a grid.',
     assumptions=COMMON_ASSUMPTIONS + [
         'order inside sub-ranges, in_range/in_range_dim, min_less_sup, range_dim, range_size, end_position and next_position '
         'called directly are observed only (the statement judges them through the ranges, size() and at_optional)',
